@@ -138,6 +138,8 @@ def check_case(case):
     if not math.isfinite(alpha) or alpha <= 0:
         alpha = 1.
     kw = dict(alpha=alpha, tol=tol, fit_intercept=fi, max_iter=300)
+    if est in ("Lasso", "WeightedLasso", "ElasticNet", "MCPRegression", "GroupLasso", "MultiTaskLasso"):
+        kw["max_epochs"] = 2000     # bounds the cost of ill-conditioned cases; a non-converged fit is inconclusive
     pc = None
     nondefault = []
     if est == "Lasso":
